@@ -453,6 +453,7 @@ func (w *world) afterEvent(n *simNode, ev evInfo, bf nodeBefore, outs []string, 
 			}
 			if seen[vt.Snd.Id] {
 				w.rep.finding("C07", "leader-counted-duplicate-voter", fmt.Sprintf("node %d", n.id), w.traceInput())
+				w.rep.finding("C09", "new-view-embeds-a-vote-twice", fmt.Sprintf("node %d: the NEW_VIEW for view %d embeds the vote of %d twice (the embedded votes are not the ones it counted)", n.id, s.NVView, vt.Snd.Id), w.traceInput())
 			}
 			seen[vt.Snd.Id] = true
 			ids = append(ids, vt.Snd.Id)
